@@ -32,7 +32,7 @@ BUDGET_S = {'quick': 240, 'thorough': 2400}
 
 FEATS = ('hier', 'abstract', 'unreg', 'extra', 'enum', 'strlike', 'any',
          'untyped', 'date', 'path', 'buf', 'abstract_containers', 'defaults',
-         'multi', 'hooks', 'permissive', 'adversarial', 'opt_any', 'seasoned')
+         'multi', 'hooks', 'permissive', 'adversarial', 'opt_any', 'seasoned', 'underscore')
 
 EMPTY = ['', '# just a comment\n', '---\n...\n', 'null', '~', '---\n', '\n\n',
          '--- # c\n', '!!null ""', '--- !!str\n']
@@ -44,7 +44,14 @@ def cases(draw):
     c = draw(st.sampled_from(list(range(12)) + [10] * 5))
     if c == 0:
         return {'model': spec, 'text': draw(st.sampled_from(EMPTY)), 'src': 'empty'}
-    t, origin = draw(gen.doc_for(spec, tags=c >= 8, hard=c % 2 == 0))
+    if c in (4, 9):
+        # an otherwise valid document with one boolean where an int is:
+        # isinstance(True, int) holds in Python
+        t, origin = draw(gen.doc_for(spec, tags=False, hard=False, mutations=False))
+        t = boolify(draw, t, one=True)
+        origin = origin.split(':')[0] + '+one_bool_for_int'
+    else:
+        t, origin = draw(gen.doc_for(spec, tags=c >= 8, hard=c % 2 == 0))
     if c == 11:
         t, _ = draw(gen.share(t))
         origin = origin.split(':')[0] + '+alias'
@@ -75,13 +82,17 @@ def obj_sites(v, spec, path=()):
             yield from obj_sites(b, spec, path + (1, i, 1))
 
 
-def boolify(draw, t):
-    """Replace int-looking scalar leaves by booleans (isinstance(True, int))."""
+def boolify(draw, t, one=False):
+    """Replace int-looking scalar leaves (one, or each with probability 2/3)
+    by booleans (isinstance(True, int))."""
     import copy
     t = copy.deepcopy(t)
-    for p, s in list(T.subtrees(t)):
-        if s[0] == 's' and not s[2] and s[1].lstrip('-').isdigit() and (not p or p[-1] != 0) \
-                and draw(st.integers(0, 2)) > 0:
+    sites = [p for p, s in T.subtrees(t)
+             if s[0] == 's' and not s[2] and s[1].lstrip('-').isdigit() and (not p or p[-1] != 0)]
+    if one:
+        sites = [draw(st.sampled_from(sites))] if sites else []
+    for p in sites:
+        if one or draw(st.integers(0, 2)) > 0:
             t = T.set_at(t, p, T.S(draw(st.sampled_from(['true', 'false']))))
     return t
 
